@@ -47,6 +47,10 @@ func tsPool() []tsItem {
 		{"year-9999", base, time.Date(9999, 12, 31, 23, 59, 59, 999999999, time.UTC)},
 		{"year-1-plus-1ns", time.Time{}.Add(time.Nanosecond), time.Time{}},
 		{"before-epoch", time.Date(1969, 12, 31, 23, 59, 59, 0, time.UTC), time.Date(1901, 12, 13, 20, 45, 51, 0, time.UTC)},
+		// instants before the zero instant (year 0, which RFC 3339 parsing accepts) next to an unset one: "the later of the two" is then the unset one
+		{"year-0-pub-only", time.Date(0, 6, 1, 0, 0, 0, 0, time.UTC), time.Time{}},
+		{"year-0-upd-only", time.Time{}, time.Date(0, 6, 1, 0, 0, 0, 0, time.UTC)},
+		{"year-0-both", time.Date(0, 3, 1, 0, 0, 0, 0, time.UTC), time.Date(0, 9, 1, 0, 0, 0, 0, time.UTC)},
 	}
 	type maker struct {
 		kind string
@@ -61,7 +65,12 @@ func tsPool() []tsItem {
 		k := k
 		mk = append(mk, maker{"*" + k.Name, func(p, u time.Time, i int) vocab.Item {
 			x := reflect.ValueOf(k.New())
-			x.Elem().FieldByName("ID").Set(reflect.ValueOf(vocab.IRI(fmt.Sprintf("https://example.com/%s/%d", k.Name, i))))
+			// a third of the items of a kind share one id (revisions of one object): the order looks at the instants, not at the id
+			id := vocab.IRI(fmt.Sprintf("https://example.com/%s/%d", k.Name, i))
+			if i%3 == 0 {
+				id = vocab.IRI("https://example.com/" + k.Name + "/revised")
+			}
+			x.Elem().FieldByName("ID").Set(reflect.ValueOf(id))
 			x.Elem().FieldByName("Type").Set(reflect.ValueOf(vocab.ActivityVocabularyType(k.SpecificType())))
 			x.Elem().FieldByName("Published").Set(reflect.ValueOf(p))
 			x.Elem().FieldByName("Updated").Set(reflect.ValueOf(u))
@@ -118,6 +127,76 @@ func init() {
 			n, n*n, n*n*n),
 		Layers: func(tier string) []Layer {
 			return []Layer{
+				{Name: "edit-then-compare", N: 13 * 6, Exhaustive: true, Run: func(c *Ctx, idx int) {
+					// an object is ranked, then edited in place (updated bumped, published cleared, ...), then ranked again:
+					// the second answer is about the instants it has now
+					var kinds []vmodel.StructKind
+					for _, k := range vmodel.Kinds {
+						if k.Name != "Link" {
+							kinds = append(kinds, k)
+						}
+					}
+					k := kinds[idx%len(kinds)]
+					edit := idx / len(kinds)
+					base := time.Date(2020, 5, 17, 12, 0, 0, 0, time.UTC)
+					mk := func(id string, pub, upd time.Time) (vocab.Item, reflect.Value) {
+						x := reflect.ValueOf(k.New())
+						x.Elem().FieldByName("ID").Set(reflect.ValueOf(vocab.IRI("https://example.com/edit/" + id)))
+						x.Elem().FieldByName("Type").Set(reflect.ValueOf(vocab.ActivityVocabularyType(k.SpecificType())))
+						x.Elem().FieldByName("Published").Set(reflect.ValueOf(pub))
+						x.Elem().FieldByName("Updated").Set(reflect.ValueOf(upd))
+						return x.Interface().(vocab.Item), x.Elem()
+					}
+					a, av := mk("a", base, time.Time{})
+					older, _ := mk("older", base.Add(-time.Hour), time.Time{})
+					newer, _ := mk("newer", base.Add(time.Hour), time.Time{})
+					keyOf := func(v reflect.Value) time.Time {
+						p, u := v.FieldByName("Published").Interface().(time.Time), v.FieldByName("Updated").Interface().(time.Time)
+						if u.After(p) {
+							return u
+						}
+						return p
+					}
+					check := func(when string) {
+						ka := keyOf(av)
+						for _, o := range []struct {
+							n  string
+							it vocab.Item
+							k  time.Time
+						}{{"older", older, base.Add(-time.Hour)}, {"newer", newer, base.Add(time.Hour)}} {
+							c.Count("edit-comparisons", 2)
+							if got, want := vocab.ItemOrderTimestamp(a, o.it), ka.After(o.k); got != want {
+								c.Fail("order|after-edit|"+when, fmt.Sprintf("%s, %s: ItemOrderTimestamp(a, %s) = %v, the instants a holds now say %v", k.Name, when, o.n, got, want), map[string]any{"kind": k.Name, "when": when})
+							}
+							if got, want := vocab.ItemOrderTimestamp(o.it, a), o.k.After(ka); got != want {
+								c.Fail("order|after-edit|"+when, fmt.Sprintf("%s, %s: ItemOrderTimestamp(%s, a) = %v, the instants a holds now say %v", k.Name, when, o.n, got, want), map[string]any{"kind": k.Name, "when": when})
+							}
+						}
+					}
+					c.Distinct(fmt.Sprintf("edit|%s|%d", k.Name, edit), true)
+					c.Guard("ItemOrderTimestamp", func() {
+						check("before the edit")
+						switch edit {
+						case 0:
+							av.FieldByName("Updated").Set(reflect.ValueOf(base.Add(2 * time.Hour)))
+						case 1:
+							av.FieldByName("Published").Set(reflect.ValueOf(base.Add(-2 * time.Hour)))
+						case 2:
+							av.FieldByName("Published").Set(reflect.ValueOf(time.Time{}))
+						case 3:
+							av.FieldByName("Updated").Set(reflect.ValueOf(base.Add(2 * time.Hour)))
+							check("after a first edit")
+							av.FieldByName("Updated").Set(reflect.ValueOf(time.Time{}))
+						case 4:
+							av.FieldByName("ID").Set(reflect.ValueOf(vocab.IRI("https://example.com/edit/renamed")))
+							av.FieldByName("Published").Set(reflect.ValueOf(base.Add(3 * time.Hour)))
+						default:
+							av.FieldByName("Published").Set(reflect.ValueOf(base.Add(-3 * time.Hour)))
+							av.FieldByName("Updated").Set(reflect.ValueOf(base.Add(-90 * time.Minute)))
+						}
+						check("after the edit")
+					})
+				}},
 				{Name: "triples", N: n, Exhaustive: true, Run: func(c *Ctx, idx int) {
 					a := pool[idx]
 					c.Distinct("slab|"+a.Name, true)
